@@ -40,8 +40,9 @@ def shapes(tier):
     for nt in range(1, nmax + 1):
         out.append({"fn": "periods_spanned", "nt": nt, "P": "sym"})
         for P in Ps:
-            out.append({"fn": "max_phase_gap", "nt": nt, "P": P})
-            if nt <= 2 or tier == "thorough":
+            if nt <= 4:
+                out.append({"fn": "max_phase_gap", "nt": nt, "P": P})
+            if nt <= 2 or (tier == "thorough" and nt <= 3):
                 # reference epoch given explicitly: no observation needs to sit at phase 0
                 out.append({"fn": "max_phase_gap", "nt": nt, "P": P, "tref": "explicit"})
                 out.append({"fn": "phase_coverage", "nt": nt, "n_bins": 2, "P": P, "tref": "explicit"})
